@@ -495,8 +495,8 @@ KEYS = ["a", "b", "c", "user-1", "user-2", "k5", "", "zz"]
 def log_strategy(tier):
     big = tier == "thorough"
     act = st.tuples(st.sampled_from([0, 0, 1, 1, 2, 5]), st.sampled_from(["app", "app", "app", "read", "read"]),
-                    st.integers(0, len(KEYS) - 1), st.integers(0, 6), st.sampled_from([1, 2, 3, 100])).map(list)
-    return st.fixed_dictionaries({"np": st.integers(1, 4), "ret": st.sampled_from([[0, 0], [0, 0], [1, 2], [1, 5], [2, 4], [2, 12], [2, 40]]),
+                    st.integers(0, len(KEYS) - 1), st.sampled_from([0, 0, 1, 2, 3, 4, 5, 6, 8, 11]), st.sampled_from([1, 2, 3, 100, 100])).map(list)
+    return st.fixed_dictionaries({"np": st.sampled_from([1, 1, 2, 3, 4]), "ret": st.sampled_from([[0, 0], [0, 0], [1, 2], [1, 5], [2, 4], [2, 12], [2, 40]]),
                                   "al": st.integers(0, len(LAT) - 1), "rl": st.integers(0, len(LAT) - 1),
                                   "interval": st.sampled_from([3, 10, 30]),
                                   "script": st.lists(act, min_size=8, max_size=50 if big else 28)})
@@ -553,7 +553,32 @@ def ex_log(case):
                 r.add(f"{pre}/stored-offsets-not-contiguous", f"partition {p.id}: offsets {offs[:12]} high_watermark {p.high_watermark}")
                 return
 
-    probe = SimProbe(sim, log=False, on_advance=lambda t: contiguous(), max_per_instant=4000, max_events=80000)
+    judged, behind = [], [0]
+
+    def read_hook(event):
+        # right after the log served a Read (its reply future has just been resolved) the partition still holds exactly the
+        # records the read saw: the answer must be the retained records with offset >= requested, oldest first, at most max
+        if event.target is not log:
+            return
+        fut = event.context.get("reply_future") if isinstance(event.context, dict) else None
+        if fut is None or "partition" not in event.context or not fut.is_resolved or any(f is fut for f in judged):
+            return
+        judged.append(fut)
+        pid, off, mx = event.context.get("partition", 0), event.context.get("offset", 0), event.context.get("max_records", 100)
+        if not (0 <= pid < np_):
+            return
+        stored = list(log.partitions[pid].records)
+        want = [x for x in stored if x.offset >= off][:mx]
+        got = list(fut.value or [])
+        if stored and off < stored[0].offset:
+            behind[0] += 1
+        if [x.offset for x in got] != [x.offset for x in want] and not state.get("readset"):
+            state["readset"] = True
+            r.add(f"{pre}/read-not-the-retained-records-from-offset",
+                  f"read(p{pid}, offset={off}, max={mx}) at {event.time.nanoseconds} ns returned offsets {[x.offset for x in got][:12]}; "
+                  f"retained offsets are {[x.offset for x in stored][:16]}, expected {[x.offset for x in want][:12]}")
+
+    probe = SimProbe(sim, log=False, on_event=read_hook, on_advance=lambda t: contiguous(), max_per_instant=4000, max_events=80000)
     status = probe.run()
     contiguous()
     if status == "spin":
@@ -597,10 +622,11 @@ def ex_log(case):
         bad = [x for x in recs if truth.get((x.partition, x.offset)) is not None and truth[(x.partition, x.offset)] != x]
         if bad:
             r.add(f"{pre}/read-record-differs-from-appended", f"{bad[0]!r}")
+    r.target = float(min(behind[0], 5))
     multi = any(len(v) >= 3 for v in byp.values())
     expired = log.stats.records_expired > 0
     r.nontrivial = multi and (expired or policy is None) and any(x[5] for x in reads)
-    r.labels += [f"partitions={np_}", f"retention={rk}", f"expired={int(expired)}", f"reads={int(bool(reads))}", f"status={status}"]
+    r.labels += [f"read-behind-retained-base={int(behind[0] > 0)}", f"partitions={np_}", f"retention={rk}", f"expired={int(expired)}", f"reads={int(bool(reads))}", f"status={status}"]
     r.observed = {"offsets": {k: v[:10] for k, v in byp.items()}}
     return r
 
